@@ -253,6 +253,14 @@ func (e *Exec) evalIdent(env *Env, x *ast.Ident) (Val, error) {
 		if v, ok := e.lookupSSAName(env.frame, x.Name); ok {
 			return v, nil
 		}
+		if env.frame == e.rootFrame {
+			if v, ok := e.localNames[x.Name]; ok {
+				return v, nil
+			}
+			if a, ok := e.localAddrs[x.Name]; ok {
+				return e.load(env.cur, e.addrOf(a)), nil
+			}
+		}
 	}
 	// package-level constants and variables
 	if env.fn != nil && env.fn.Pkg != nil {
@@ -340,11 +348,14 @@ func (e *Exec) constOf(t types.Type, c constant.Value) Val {
 	return Val{T: t, Term: e.fresh("const", e.reg.sortOf(t))}
 }
 
-func (e *Exec) importedPackage(env *Env, name string) *types.Package {
+// importedPackages: candidate packages for an import alias used in a contract of env's package
+// (the same alias may name different packages in different files).
+func (e *Exec) importedPackages(env *Env, name string) []*types.Package {
+	var out []*types.Package
 	if env.fn == nil || env.fn.Pkg == nil {
 		return nil
 	}
-	if path, ok := e.W.importAlias[env.fn.Pkg.Pkg.Path()][name]; ok {
+	byPath := func(path string) *types.Package {
 		for _, p := range e.W.prog.AllPackages() {
 			if p.Pkg.Path() == path {
 				return p.Pkg
@@ -355,17 +366,39 @@ func (e *Exec) importedPackage(env *Env, name string) *types.Package {
 				return imp
 			}
 		}
+		return nil
+	}
+	for _, path := range e.W.importAlias[env.fn.Pkg.Pkg.Path()][name] {
+		if p := byPath(path); p != nil {
+			out = append(out, p)
+		}
 	}
 	for _, imp := range env.fn.Pkg.Pkg.Imports() {
 		if imp.Name() == name {
-			return imp
+			out = append(out, imp)
 		}
 	}
 	if path, ok := wellKnownAliases[name]; ok {
-		for _, p := range e.W.prog.AllPackages() {
-			if p.Pkg.Path() == path {
-				return p.Pkg
-			}
+		if p := byPath(path); p != nil {
+			out = append(out, p)
+		}
+	}
+	return out
+}
+
+func (e *Exec) importedPackage(env *Env, name string) *types.Package {
+	ps := e.importedPackages(env, name)
+	if len(ps) == 0 {
+		return nil
+	}
+	return ps[0]
+}
+
+// lookupImported finds sel in any package the alias may denote.
+func (e *Exec) lookupImported(env *Env, alias, sel string) types.Object {
+	for _, p := range e.importedPackages(env, alias) {
+		if obj := p.Scope().Lookup(sel); obj != nil {
+			return obj
 		}
 	}
 	return nil
@@ -384,7 +417,7 @@ func (e *Exec) evalSelector(env *Env, x *ast.SelectorExpr) (Val, error) {
 		if _, isVar := env.vars[id.Name]; !isVar {
 			if _, isLet := env.lets[id.Name]; !isLet {
 				if pkg := e.importedPackage(env, id.Name); pkg != nil {
-					obj := pkg.Scope().Lookup(x.Sel.Name)
+					obj := e.lookupImported(env, id.Name, x.Sel.Name)
 					if obj == nil {
 						return Val{}, fmt.Errorf("%s.%s not found", id.Name, x.Sel.Name)
 					}
@@ -579,10 +612,8 @@ func (e *Exec) resolveType(env *Env, ex ast.Expr) (types.Type, error) {
 		}
 	case *ast.SelectorExpr:
 		if id, ok := x.X.(*ast.Ident); ok {
-			if pkg := e.importedPackage(env, id.Name); pkg != nil {
-				if tn, ok := pkg.Scope().Lookup(x.Sel.Name).(*types.TypeName); ok {
-					return tn.Type(), nil
-				}
+			if tn, ok := e.lookupImported(env, id.Name, x.Sel.Name).(*types.TypeName); ok {
+				return tn.Type(), nil
 			}
 		}
 	case *ast.StarExpr:
